@@ -3,7 +3,7 @@
    events; trav/trav_de = pre/post-order traversal of the instance tree).
    Proofs: theories/HooksProofs.v.  The model is compared with /repo on every run. *)
 From Coq Require Import List Arith Bool.
-From Verif Require Import Hooks HooksProofs.
+From Verif Require Import Hooks HooksProofs HooksDe.
 Import ListNotations.
 
 (* Full-strength statement: for every schema, every well-typed value and both paths the hook
@@ -67,6 +67,16 @@ Theorem C19_de_trace_partial :
 Proof. exact de_trace_partial. Qed.
 Print Assumptions C19_de_trace_partial.
 
+(* deserialization, any schema (unions included), any input: if from_dict returns r, then the
+   __post_deserialize__ events that concern instances of r are exactly one per instance of r
+   whose class declares the hook, in construction (post) order - regardless of what discarded
+   union attempts did *)
+Theorem C19_de_post_once :
+  forall E w t n r tr n',
+    unpack E w t n = (Some r, tr, n') -> post_events_of E r tr = expected_post E r.
+Proof. exact de_post_once. Qed.
+Print Assumptions C19_de_post_once.
+
 (* ---- non-vacuity: a nested schema with a list, an Optional, hooks on every class, a pre hook
    that returns another object (6 -> 9), mixed context options *)
 Definition E_ex : env :=
@@ -88,3 +98,18 @@ Proof.
   eapply onpath_list with (x := VInst 0 3 3 [(0, VInt)]); [right; left; reflexivity|].
   apply onpath_here. reflexivity.
 Qed.
+
+(* a look-alike union: the first member is tried, decodes an inner instance (identity 0, post hook runs),
+   then fails; the result comes from the second member; the theorem's filter keeps exactly its events *)
+Definition E_ex2 : env :=
+  [ Build_cinfo [Build_field 0 TInt false] false false true true false;
+    Build_cinfo [Build_field 1 (TDc 0) false; Build_field 2 TInt false] false false true true false;
+    Build_cinfo [Build_field 1 (TDc 0) false; Build_field 3 TInt false] false false true true false ].
+Example C19_de_nonvacuous :
+  unpack E_ex2 (WDict [(1, WDict [(0, WInt)]); (3, WInt)]) (TUnion [1; 2]) 0
+  = (Some (VInst 2 2 2 [(1, VInst 0 1 1 [(0, VInt)]); (3, VInt)]),
+     [PreDe 1; PreDe 0; PostDe 0 0; PreDe 2; PreDe 0; PostDe 0 1; PostDe 2 2], 3)
+  /\ post_events_of E_ex2 (VInst 2 2 2 [(1, VInst 0 1 1 [(0, VInt)]); (3, VInt)])
+       [PreDe 1; PreDe 0; PostDe 0 0; PreDe 2; PreDe 0; PostDe 0 1; PostDe 2 2]
+     = [PostDe 0 1; PostDe 2 2].
+Proof. split; vm_compute; reflexivity. Qed.
